@@ -40,8 +40,8 @@ Photon counts
         a count for every sample of `iw`; ALWAYS non-zero counts in (some) discarded samples:
         "mixed"  small counts 0..hi everywhere (used and discarded alike)
         "loud"   discarded samples get counts 50..99, used ones 0..hi
-        "ids"    sample i gets 2**(i % 40) (a pixel value then identifies exactly which samples were summed; only
-                 meaningful for fewer than 40 samples per pixel)
+        "ids"    sample i gets 2**(i % 32) (a pixel value then identifies exactly which samples were summed; only
+                 meaningful for fewer than 32 samples per pixel; totals stay far below 2**53)
         "big"    used samples up to 2**20
         "ones"   every sample 1 (pixel = number of used samples in it)
 
@@ -158,7 +158,7 @@ def counts(rng, iw, style="mixed", hi=9):
     out = []
     for i, c in enumerate(iw):
         if style == "ids":
-            out.append(1 << (i % 40))
+            out.append(1 << (i % 32))
         elif style == "ones":
             out.append(1)
         elif style == "loud":
